@@ -27,6 +27,7 @@ def classifyEvict (c : Ctx) (pre : EState) (cmd : List Bytes) (modelVerdict : St
   else if (modelVerdict == "rej:residue" || modelVerdict == "rej:stale") && isLruPol pol then some "lru-duplicate-entries-outlive-their-key"
   else if modelVerdict == "rej:candidate" && (pol == .volatileLfu || pol == .volatileLru) then some "volatile-cache-keeps-persisted-key"
   else if modelVerdict == "rej:candidate" && pol == .volatileRandom then some "volatile-index-keeps-persisted-key"
+  else if modelVerdict == "rej:below-limit" && pre.s.mem < 0 then some "negative-usage-counter-reads-as-over-the-limit"
   else if modelVerdict == "rej:admitted" && pol == .noeviction then some "noeviction-admits-in-place-collection-writes"
   else if modelVerdict == "rej:partial" && pol == .noeviction && (n == b "lpush" || n == b "rpush") then some "refused-push-leaves-empty-list"
   else if modelVerdict == "rej:survivor" && pol != .noeviction &&
